@@ -331,6 +331,9 @@ pub struct Ctx<'a> {
     stats: Stats,
     replay: Option<(String, Value)>, // (part, case)
     replay_mode: bool,
+    /// upper bound on proptest's shrink iterations for the parts run after it is set (default 3000);
+    /// jobs whose single evaluation takes a second or more lower it so that a failure is reported in minutes
+    pub shrink_iters: u32,
 }
 
 fn fnv1a(s: &str) -> u64 {
@@ -472,7 +475,7 @@ impl<'a> Ctx<'a> {
         let config = Config {
             cases,
             failure_persistence: None,
-            max_shrink_iters: 3000,
+            max_shrink_iters: self.shrink_iters,
             max_global_rejects: 1 << 20,
             verbose: 0,
             ..Config::default()
@@ -634,6 +637,7 @@ fn run_jobs(opts: &Opts, jobs: &[Job], replay: Option<(String, String, Value)>) 
                     stats: Stats::default(),
                     replay: replay.as_ref().map(|(_, p, c)| (p.clone(), c.clone())),
                     replay_mode: replay.is_some(),
+                    shrink_iters: 3000,
                 };
                 let r = catch(|| (job.body)(&mut ctx));
                 if let Err(p) = r {
